@@ -1,0 +1,33 @@
+//go:build verif
+
+// Contracts for the deductive checks in /verif (structured comments only; this file declares nothing).
+package provider
+
+//@ pure xsTrue(s) = s == "true" || s == "1"
+//@ pure hasMatch(acs, b) = exists i :: 0 <= i && i < len(acs) && acs[i].Binding == b
+//@ pure firstMatch(acs, b, m) = 0 <= m && m < len(acs) && acs[m].Binding == b && (forall j :: 0 <= j && j < m ==> acs[j].Binding != b)
+//@ pure hasDefault(acs) = exists i :: 0 <= i && i < len(acs) && xsTrue(acs[i].IsDefault)
+//@ pure firstDefault(acs, d) = 0 <= d && d < len(acs) && xsTrue(acs[d].IsDefault) && (forall j :: 0 <= j && j < d ==> !xsTrue(acs[j].IsDefault))
+//@ pure isEntry(acs, k, url, binding) = 0 <= k && k < len(acs) && url == acs[k].Location && binding == acs[k].Binding
+//@
+//@ func provider.GetAcsUrlAndBindingForResponse
+//@   names url, binding
+//@   property C16
+//@   ensures none: len(acs) == 0 ==> url == "" && binding == ""
+//@   ensures match: hasMatch(acs, requestProtocolBinding) ==>
+//@             exists m :: firstMatch(acs, requestProtocolBinding, m) && url == acs[m].Location && binding == acs[m].Binding
+//@   ensures default: !hasMatch(acs, requestProtocolBinding) && hasDefault(acs) ==>
+//@             exists d :: firstDefault(acs, d) && url == acs[d].Location && binding == acs[d].Binding
+//@   ensures lowest: !hasMatch(acs, requestProtocolBinding) && !hasDefault(acs) && len(acs) > 0 ==>
+//@             exists k :: isEntry(acs, k, url, binding) && (forall j :: 0 <= j && j < len(acs) ==> atoi(acs[k].Index) <= atoi(acs[j].Index))
+//@   ensures C02,C16.same-entry: (url == "" && binding == "" && len(acs) == 0) || (exists k :: isEntry(acs, k, url, binding))
+//@   canary C16.canary-first-entry: len(acs) > 0 ==> url == acs[0].Location
+//@   loop 1 invariant range: -1 <= $ri && $ri < len(acs)
+//@   loop 1 invariant nomatch: forall j :: 0 <= j && j <= $ri ==> acs[j].Binding != requestProtocolBinding
+//@   loop 2 invariant range: -1 <= $ri && $ri < len(acs)
+//@   loop 2 invariant nodefault: forall j :: 0 <= j && j <= $ri ==> !xsTrue(acs[j].IsDefault)
+//@   loop 3 invariant range: -1 <= $ri && $ri < len(acs)
+//@   loop 3 invariant found: #indexFound <==> $ri >= 0
+//@   loop 3 invariant unset: !#indexFound ==> #acsUrl == "" && #protocolBinding == ""
+//@   loop 3 invariant best: #indexFound ==> exists k :: 0 <= k && k <= $ri && #acsUrl == acs[k].Location && #protocolBinding == acs[k].Binding &&
+//@             #index == atoi(acs[k].Index) && (forall j :: 0 <= j && j <= $ri ==> #index <= atoi(acs[j].Index))
